@@ -9,7 +9,7 @@ use serde_json::{json, Value};
 use std::collections::BTreeMap;
 
 // the last two are written with the documented escape, so the message text itself contains ${m0} / ${l0}
-const MSGS: [&str; 7] = ["boom", "two words", "x=1", "bad: value", "e#1", "no \\${m0} here", "\\${l0}"];
+const MSGS: [&str; 11] = ["boom", "two words", "x=1", "bad: value", "e#1", "no \\${m0} here", "\\${l0}", "", " ", "7", "boom"];
 
 fn gen_ops(r: &mut Rng, n: usize) -> Vec<Value> {
     (0..n)
